@@ -36,6 +36,8 @@ type c09Case struct {
 	PackSize  int           `json:"pack_size"`
 	Reject    string        `json:"reject"` // "": valid script; otherwise which failing script to use
 	Plain     bool          `json:"plain"`  // control
+	// LongName: one remote server name is longer than 255 bytes
+	LongName bool `json:"remote_server_name_over_255_bytes,omitempty"`
 }
 
 type remote struct {
@@ -201,6 +203,29 @@ func runCase(c c09Case) *vh.Failure {
 	}
 	if res.TimedOut {
 		return vh.Failf("C09/login-hangs", "%s: Login did not return", where)
+	}
+	if c.LongName {
+		// a remote server name beyond what its one-byte length prefix can carry: whatever the
+		// library makes of it (refuse it up front, send it mangled), the secrets stay secret;
+		// nothing else is judged
+		all := [][]byte{c.Password}
+		for _, r := range c.Remotes {
+			all = append(all, r.Password)
+		}
+		for i, pw := range all {
+			if !distinctive(pw, c) {
+				continue
+			}
+			if j := bytes.Index(res.Written, pw); j >= 0 {
+				return vh.Failf("C09/password-in-clear-on-wire", "%s, a remote server name of over 255 bytes: secret %d occurs in clear at offset %d of the written bytes", where, i, j)
+			}
+			if res.Err != nil && strings.Contains(res.Err.Error(), string(pw)) {
+				return vh.Failf("C09/password-in-error-text", "%s, a remote server name of over 255 bytes: secret %d occurs in the error text %q", where, i, res.Err.Error())
+			}
+			vh.Label("searched-for-secret")
+		}
+		vh.Label("remote-server-name-over-255-bytes")
+		return nil
 	}
 	if len(res.Msg1) == 0 {
 		return vh.Failf("C09/no-login-record", "%s: the client sent no login message (err %v)", where, res.Err)
@@ -453,6 +478,11 @@ func genCase(rt *rapid.T) c09Case {
 		}
 		c.Remotes = append(c.Remotes, r)
 	}
+	if len(c.Remotes) > 0 && rapid.IntRange(0, 9).Draw(rt, "longname") == 0 {
+		i := rapid.IntRange(0, len(c.Remotes)-1).Draw(rt, "whichlong")
+		c.Remotes[i].Name = strings.Repeat("R", rapid.SampledFrom([]int{256, 257, 300, 511, 512, 1000}).Draw(rt, "longlen"))
+		c.LongName = true
+	}
 	if rapid.Bool().Draw(rt, "packsize") {
 		c.PackSize = rapid.SampledFrom([]int{256, 512, 1024, 2048, 4096}).Draw(rt, "ps")
 	}
@@ -460,6 +490,17 @@ func genCase(rt *rapid.T) c09Case {
 		c.Reject = rapid.SampledFrom([]string{"login-failed", "zero-caps", "garbled-key", "wrong-msgid"}).Draw(rt, "reject")
 	}
 	return c
+}
+
+// shortNames undoes the over-long remote server name of a generated case (for the tests that
+// need logins that succeed).
+func shortNames(c *c09Case) {
+	for i := range c.Remotes {
+		if len(c.Remotes[i].Name) > 255 {
+			c.Remotes[i].Name = c.Remotes[i].Name[:20]
+		}
+	}
+	c.LongName = false
 }
 
 func TestPasswordSecrecy(t *testing.T) {
@@ -478,7 +519,7 @@ func TestPasswordSecrecy(t *testing.T) {
 func TestPlainFlowControl(t *testing.T) {
 	gen := func(rt *rapid.T) c09Case {
 		c := genCase(rt)
-		c.Plain, c.Reject, c.Remotes = true, "", nil
+		c.Plain, c.Reject, c.Remotes, c.LongName = true, "", nil, false
 		if len(c.Password) > 30 {
 			c.Password = c.Password[:30]
 		}
@@ -498,6 +539,7 @@ func TestConcurrentLogins(t *testing.T) {
 		for i := 0; i < n; i++ {
 			c := genCase(rt)
 			c.Reject = ""
+			shortNames(&c)
 			if len(c.Password) > c.Key.Capacity()-len(c.Nonce) {
 				c.Password = c.Password[:c.Key.Capacity()-len(c.Nonce)]
 				c.Password2 = c.Password2[:len(c.Password)]
